@@ -36,11 +36,34 @@ def cases(draw, cls, max_n=120):
     cfg = draw(gc.config(cls))
     w = gc.warmup(cfg)
     n = draw(st.one_of(st.integers(0, w + 3), st.integers(w, max_n)))
+    if draw(st.integers(0, 3)) == 0:
+        return _scheduled(draw, cfg, n)
     return {"cfg": cfg, "stream": draw(gs.streams(n, n, with_ts=False))}
+
+
+@st.composite
+def supertrend_tie_cases(draw):
+    """dyadic grid + period 2/4: ATR and bands are exact at 4 decimals, so a close that only touches the
+    previous band (no break) is a decidable tie"""
+    kw = {"period": draw(st.sampled_from((2, 2, 4))), "multiplier": draw(st.sampled_from((1.0, 1.0, 2.0, 1.5, 3.0)))}
+    n = draw(st.integers(8, 80))
+    grid = draw(st.sampled_from(((1.0, 0), (0.25, 2), (0.5, 1))))
+    rows = draw(gs.price_rows(n, regimes=("walk", "up", "down", "flatbody", "flat"), grid=grid, base=draw(st.sampled_from((20, 100))), zero_volume_runs=False))
+    return {"cfg": {"cls": "Supertrend", "kw": kw}, "stream": [[None] + r for r in rows]}
 
 
 def _fields(ind, names):
     return {f: nm.series(ind, f) for f in names}
+
+
+def _scheduled(draw, cfg, n):
+    """the same definition must hold on the collapsed candles of a timeframe fed by any append schedule"""
+    from hxv.lib import tf_seconds
+
+    tf = draw(st.sampled_from(("T5", "T5", "T1", "H1")))
+    n = min(n * 2, 240)
+    rows = draw(gs.streams(n, n, tf_s=tf_seconds(tf)))
+    return {"cfg": cfg, "stream": rows, "tf": tf, "fill": draw(st.booleans()), "preload": 0, "chunks": draw(gs.chunking(n))}
 
 
 def run_case(case) -> Result:
@@ -62,7 +85,19 @@ def run_case(case) -> Result:
                 if v is not None:
                     c.indicators["X"] = v
 
-    ind, v = nm.run_batch(cfg, rows, prep)
+    if case.get("tf"):
+        from hxv.lib import raises, snap
+        from hxv.props import twin
+
+        labels.append("scheduled_timeframe")
+        try:
+            ind, _ = twin.run_incremental(case)
+            v = None
+            rows = [r[:6] for r in snap(ind.candles, readings=False)]  # the library's own collapsed candles (C03 judges those)
+        except Exception as exc:
+            ind, v = None, raises(exc)
+    else:
+        ind, v = nm.run_batch(cfg, rows, prep)
     if v is not None:
         v.subject = cls
         return Result([v], False, labels)
@@ -124,6 +159,8 @@ def run_case(case) -> Result:
             rd, rt = row
             if i and ref[i - 1] is not None and ref[i - 1][0] != rd:
                 flips += 1
+            if i and ref[i - 1] is not None and ref[i - 1][1].e == 0.0 and rows[i][4] == ref[i - 1][1].v:
+                stats["supertrend_close_touches_previous_trend_band"] = stats.get("supertrend_close_touches_previous_trend_band", 0) + 1
             if t is None:
                 viol.append(Violation("reading-missing-where-defined", "trend", f"index {i}: no trend, definition {rt!r}"))
             elif d != rd:
@@ -175,4 +212,5 @@ def shards(tier):
     for c in CLASSES:
         cost = 3 if c in ("Supertrend", "KC", "BBANDS") else 1
         out.append(Shard(c, (lambda c=c: cases(c)), n, subject=c, cost=cost))
+    out.append(Shard("Supertrend-ties", lambda: supertrend_tie_cases(), n, subject="Supertrend", cost=2))
     return out
